@@ -27,16 +27,18 @@
 package main
 
 import (
+	"bytes"
 	"fmt"
 	"go/ast"
 	"go/parser"
+	"go/printer"
 	"go/token"
 	"path/filepath"
 	"sort"
 	"strings"
 )
 
-func init() { registerExtra(extractSenFacts) }
+func init() { registerExtra(extractSenFacts); registerExtra(extractSenWriterFacts) }
 
 // senSelPath renders `p.a.b` as "a.b" when the root identifier is the receiver.
 func senSelPath(x ast.Expr, recv string) (string, bool) {
@@ -496,6 +498,147 @@ func extractSenFacts(repo, out string) ([]string, error) {
 	}
 	if ch {
 		return []string{"SenFacts"}, nil
+	}
+	return nil, nil
+}
+
+
+// ---- sen/writer.go: which append functions the options select, and what the indented ones write ----
+//
+// Writes lean/OjgVerif/Gen/SenWriterFacts.lean:
+//
+//   - mustSENDispatch / mustWriteDispatch: the statement `if wr.Color { … } else { … }` of (*Writer).MustSEN /
+//     MustWrite (it installs appendArray / appendObject / appendDefault according to Tab, Indent, Sort and calls
+//     appendSEN), printed by go/printer, one trimmed line per entry, comments dropped;
+//   - appendArraySrc / appendObjectSrc / appendSortObjectSrc: the bodies of the three indented append functions,
+//     printed the same way (the computation of `is` / `cs` with the clamps against len(spaces) / len(tabs), the
+//     brackets, the member filter for OmitNil / OmitEmpty, the `": "` after a member name, the order of the appends);
+//   - appendSENScalarCases: the case labels (types) of the type switch of (*Writer).appendSEN up to `[]any`, with
+//     the printed first statement of each (how a scalar is written).
+//
+// Props/C10Facts.lean compares them with the text the model `Sen.indentVal` / `Sen.senWrite` was written against.
+func senPrintLines(fset *token.FileSet, n ast.Node) ([]string, error) {
+	var buf bytes.Buffer
+	cfg := printer.Config{Mode: printer.RawFormat, Tabwidth: 1}
+	if err := cfg.Fprint(&buf, fset, n); err != nil {
+		return nil, err
+	}
+	var out []string
+	for _, ln := range strings.Split(buf.String(), "\n") {
+		ln = strings.TrimSpace(ln)
+		if ln == "" || strings.HasPrefix(ln, "//") {
+			continue
+		}
+		out = append(out, ln)
+	}
+	return out, nil
+}
+
+func senPlainFunc(f *ast.File, name string) *ast.FuncDecl {
+	for _, d := range f.Decls {
+		if fd, ok := d.(*ast.FuncDecl); ok && fd.Recv == nil && fd.Name.Name == name {
+			return fd
+		}
+	}
+	return nil
+}
+
+func extractSenWriterFacts(repo, out string) ([]string, error) {
+	fset := token.NewFileSet()
+	// comments are not parsed: they do not appear in the printed statements
+	wf, err := parser.ParseFile(fset, filepath.Join(repo, "sen", "writer.go"), nil, 0)
+	if err != nil {
+		return nil, err
+	}
+	var b strings.Builder
+	b.WriteString("/- GENERATED by /verif/tools/extract (sen.go) from sen/writer.go — do not edit; rewritten on every run. -/\n")
+	b.WriteString("namespace OjgVerif.Gen.SenWriterFacts\n\n")
+	for _, r := range []struct{ lean, fn string }{{"mustSENDispatch", "MustSEN"}, {"mustWriteDispatch", "MustWrite"}} {
+		fd := senFuncDecl(wf, "Writer", r.fn)
+		if fd == nil || fd.Body == nil {
+			return nil, fmt.Errorf("sen: func (*Writer).%s not found", r.fn)
+		}
+		var pick *ast.IfStmt
+		for _, st := range fd.Body.List {
+			if is, ok := st.(*ast.IfStmt); ok {
+				if se, ok := is.Cond.(*ast.SelectorExpr); ok && se.Sel.Name == "Color" {
+					pick = is
+				}
+			}
+		}
+		if pick == nil {
+			return nil, fmt.Errorf("sen: (*Writer).%s has no top-level `if wr.Color`", r.fn)
+		}
+		lines, err := senPrintLines(fset, pick)
+		if err != nil {
+			return nil, err
+		}
+		fmt.Fprintf(&b, "/-- the `if wr.Color { … } else { … }` statement of (*Writer).%s -/\ndef %s : List String := %s\n\n", r.fn, r.lean, senLeanList(lines))
+	}
+	for _, r := range []struct{ lean, fn string }{{"appendArraySrc", "appendArray"}, {"appendObjectSrc", "appendObject"}, {"appendSortObjectSrc", "appendSortObject"}} {
+		fd := senPlainFunc(wf, r.fn)
+		if fd == nil || fd.Body == nil {
+			return nil, fmt.Errorf("sen: func %s not found", r.fn)
+		}
+		lines, err := senPrintLines(fset, fd.Body)
+		if err != nil {
+			return nil, err
+		}
+		fmt.Fprintf(&b, "/-- body of func %s (sen/writer.go) -/\ndef %s : List String := %s\n\n", r.fn, r.lean, senLeanList(lines))
+	}
+	// the scalar cases of appendSEN
+	fd := senFuncDecl(wf, "Writer", "appendSEN")
+	if fd == nil || fd.Body == nil {
+		return nil, fmt.Errorf("sen: func (*Writer).appendSEN not found")
+	}
+	var ts *ast.TypeSwitchStmt
+	for _, st := range fd.Body.List {
+		if t, ok := st.(*ast.TypeSwitchStmt); ok {
+			ts = t
+		}
+	}
+	if ts == nil {
+		return nil, fmt.Errorf("sen: (*Writer).appendSEN has no type switch")
+	}
+	var cases []string
+	done := false
+	for _, c := range ts.Body.List {
+		cc := c.(*ast.CaseClause)
+		var labels []string
+		for _, e := range cc.List {
+			ls, err := senPrintLines(fset, e)
+			if err != nil {
+				return nil, err
+			}
+			labels = append(labels, strings.Join(ls, " "))
+		}
+		lab := strings.Join(labels, ",")
+		first := ""
+		if len(cc.Body) > 0 {
+			ls, err := senPrintLines(fset, cc.Body[0])
+			if err != nil {
+				return nil, err
+			}
+			first = strings.Join(ls, " ")
+		}
+		cases = append(cases, lab+" => "+first)
+		if lab == "map[string]any" {
+			done = true
+			break
+		}
+	}
+	if !done {
+		return nil, fmt.Errorf("sen: (*Writer).appendSEN: case map[string]any not found")
+	}
+	fmt.Fprintf(&b, "/-- the cases of the type switch of (*Writer).appendSEN up to `map[string]any`: label => first statement -/\ndef appendSENCases : List String := %s\n\n", senLeanList(cases))
+	b.WriteString("end OjgVerif.Gen.SenWriterFacts\n")
+	path := filepath.Join(out, "SenWriterFacts.lean")
+	changed, err := writeIfChanged(path, b.String())
+	if err != nil {
+		return nil, err
+	}
+	if changed {
+		return []string{"SenWriterFacts"}, nil
 	}
 	return nil, nil
 }
